@@ -398,6 +398,17 @@ func (c *core) fastForward(block *hg.Block, frame *hg.Frame) error {
 	c.setPeers(peers.NewPeerSet(frame.Peers))
 	c.validators = peers.NewPeerSet(frame.Peers)
 
+	// Changes accepted less than 6 rounds before the Frame are not effective at
+	// the Frame's round yet, but they are recorded in its peer-set history.
+	// The latest recorded validator-set is the base for subsequent changes.
+	latestRound := -1
+	for r, ps := range frame.PeerSets {
+		if r > latestRound {
+			latestRound = r
+			c.validators = peers.NewPeerSet(ps)
+		}
+	}
+
 	return nil
 }
 
